@@ -7,6 +7,7 @@ HARNESS_FILES = ['pkg/frame/zz_verif_common.go', 'pkg/frame/zz_verif_dialect.go'
                  'pkg/frame/zz_verif_c08.go', 'pkg/frame/zz_verif_c05.go', 'pkg/frame/zz_verif_c06.go',
                  'pkg/frame/zz_verif_export.go', 'pkg/frame/zz_verif_msgs.go', 'zz_verif_node.go', 'zz_verif_c10.go']
 KERNEL_PKGS = ['.']
+NATIVE_ROOT_PREFIXES = ('verifHarness_C08_',)
 ROOTS = ['verifHarness_C08']
 ALLOW = 'bufio,io,encoding/binary,errors,bytes'
 INITS = 'io,bufio,errors,github.com/bluenviron/gomavlib/v3/pkg/message'
